@@ -116,6 +116,9 @@ func (d *devWorld) start(ch *kernel.Chooser) string {
 		d.viol("user-code", "device_authorization", "%s: user code %q has dashes although the dash interval is %d", desc, da.UserCode, cfg.UserCode.DashInterval)
 	}
 	wantURI := w.Issuer + cfg.UserFormPath
+	if cfg.UserFormURL != "" {
+		wantURI = cfg.UserFormURL // the (older) setting of an absolute address takes the place of issuer + path
+	}
 	if da.VerificationURI != wantURI {
 		d.viol("verification-uri", "device_authorization", "%s: verification_uri %q, expected %q", desc, da.VerificationURI, wantURI)
 	}
@@ -414,7 +417,13 @@ func RunC16(t *testing.T, spec kernel.Spec) *kernel.Outcome {
 		if tc := tape.Sub("cfg-tenants"); tc.Bool(1, 3) {
 			tenants = 2 + tc.Int(2) // the verification URIs belong to the issuer of the request that started the flow
 		}
-		w, err := world.NewStd(o, tape, world.StdOptions{Router: spec.Params["router"], ForceCaps: &caps, Tenants: tenants, ForceConfig: func(c *op.Config) { c.DeviceAuthorization.UserCode = uc }})
+		w, err := world.NewStd(o, tape, world.StdOptions{Router: spec.Params["router"], ForceCaps: &caps, Tenants: tenants, ForceConfig: func(c *op.Config) {
+			c.DeviceAuthorization.UserCode = uc
+			if cfg2.Bool(1, 5) {
+				c.DeviceAuthorization.UserFormURL = "https://login.sim/device-form"
+				o.Probe("device-form-at-an-absolute-address")
+			}
+		}})
 		if err != nil {
 			o.Infra = "world: " + err.Error()
 			return
